@@ -775,7 +775,9 @@ func raceOne(rc *raceCase, timeout time.Duration, jitter time.Duration, swap boo
 		}
 	}
 	if rc.TraceOnly {
-		time.Sleep(20 * time.Millisecond)
+		// let the transfer that was let go finish before the nodes are closed (closing a follower controller
+		// under a running snapshot handler makes the unchanged code dereference fc.wal == nil)
+		time.Sleep(250 * time.Millisecond)
 		return nil, nil
 	}
 	// judge: one of the two serializations
